@@ -1212,7 +1212,7 @@ Proof.
     destruct (bind_of mp is_init (SFrom ln T x asn bare)) as [[a0 m0]|] eqn:Eb.
     + simpl in Eb. destruct (bare && is_init && match asn with None => true | Some _ => false end); try discriminate.
       destruct (path_eqb _ _); try discriminate. inversion Eb; subst a0 m0. rewrite Hmb. exists (T ++ [x]), ln. split; auto.
-      intros Ha. eauto.
+      intros Ha. exists T, x, asn, bare. split; reflexivity.
     + exfalso. simpl in Hok. apply andb_true_iff in Hok. destruct Hok as [Hok Hbare]. apply andb_true_iff in Hok. destruct Hok as [_ Hself].
       assert (HT : T = mp /\ match asn with Some a0 => a0 | None => x end = x).
       { simpl in Eb. destruct (bare && is_init && match asn with None => true | Some _ => false end) eqn:Es.
@@ -1302,15 +1302,15 @@ Proof.
       inversion Hval; subst v'.
       assert (Hxc : ~ In x (children_of ms T)).
       { intros Hc. pose proof (mo_child T stT tm HokT x _ Hc El). discriminate. }
-      pose proof (mo_rel T stT tm HokT x Hxc (plain_not_dunder x (mo_plain T stT tm HokT x _ El))) as Hr. rewrite El in Hr.
+      pose proof (mo_rel T stT tm HokT x Hxc (plain_not_dunder x (mo_plain T stT tm HokT x _ El))) as Hrx. rewrite El in Hrx.
       destruct (lookup x (members stT)) as [m'|] eqn:Em; [|contradiction].
-      destruct Hr as [Hns [h' [r' [Hh' [HR' Hv']]]]].
+      destruct Hrx as [Hns [h' [r' [Hh' [HR' Hv']]]]].
       assert (Hr' : r' = FObj KAttr (T' ++ ["__all__"])).
       { unfold vmatch in Hv'. destruct r' as [k p1|p1|]; simpl in Hv'; try discriminate.
         destruct k; simpl in Hv'; try discriminate. apply path_eqb_eq in Hv'. subst. reflexivity. }
       subst r'.
       assert (Hal : is_alias m' = true).
-      { destruct m' as [k ln'| |tg ln' bb|sr inn ln']; auto; [|contradiction].
+      { destruct m' as [k ln'| |tg ln' bb|sr inn ln']; auto; try contradiction.
         inversion HR'; subst. exfalso.
         match goal with Hq : _ ++ [x] = T' ++ ["__all__"] |- _ => apply app_inj_tail in Hq; destruct Hq as [_ Hq]; subst x; discriminate end. }
       unfold list_owner. rewrite Ex, HstT, Em, Hal.
